@@ -1,9 +1,11 @@
-use svgdx::Result;
+use std::process::ExitCode;
 
 use svgdx::cli::{get_config, run};
 
-fn main() -> Result<()> {
-    run(get_config()?)?;
-
-    Ok(())
+fn main() -> ExitCode {
+    if let Err(e) = get_config().and_then(run) {
+        eprintln!("Error: {e}");
+        return ExitCode::FAILURE;
+    }
+    ExitCode::SUCCESS
 }
